@@ -21,6 +21,9 @@ namespace cs
             F_SIZE_VALUE,
             F_ILIST,
             F_RANGE,
+            F_RETRY,   // the type's constructor builds one more joint_array in its body, catches a failure of an
+                       // element constructor there and tries again: the failed attempt must have given its joint
+                       // memory back
             F_BYVALUE, // like F_SIZE_VALUE, the first value is taken by value: its copy is made before the
                        // joint_type base exists (a failure there finds the block without a joint stack)
             FORMS
@@ -56,10 +59,45 @@ namespace cs
             struct byvalue_tag
             {
             };
+            struct retry_tag
+            {
+            };
             int                 value;
             fm::joint_array<E1> a;
             fm::joint_array<E2> b;
             fm::joint_array<E3> c;
+            // (F_RETRY) a fourth array, built in the constructor's body
+            alignas(fm::joint_array<E2>) unsigned char extra_[sizeof(fm::joint_array<E2>)];
+            bool has_extra_ = false;
+            int  retries_   = 0;
+            fm::joint_array<E2>& extra()
+            {
+                return *reinterpret_cast<fm::joint_array<E2>*>(extra_);
+            }
+            const fm::joint_array<E2>& extra() const
+            {
+                return *reinterpret_cast<const fm::joint_array<E2>*>(extra_);
+            }
+            ~JT()
+            {
+                if (has_extra_)
+                    extra().~joint_array();
+            }
+            JT(fm::joint tag, retry_tag, const Args& x, const E1& v1, const E2& v2)
+            : base(tag), value(x.base), a(x.n[0], v1, *this), b(std::size_t(0), *this), c(std::size_t(0), *this)
+            {
+                try
+                {
+                    ::new (static_cast<void*>(extra_)) fm::joint_array<E2>(x.n[1], v2, *this);
+                }
+                catch (const Injected&)
+                {
+                    ++retries_;
+                    ctl().arm(0);
+                    ::new (static_cast<void*>(extra_)) fm::joint_array<E2>(x.n[1], v2, *this);
+                }
+                has_extra_ = true;
+            }
 
             JT(fm::joint tag, size_tag, const Args& x)
             : base(tag), value(x.base), a(x.n[0], *this), b(x.n[1], *this), c(x.n[2], *this)
@@ -85,11 +123,21 @@ namespace cs
             }
             JT(fm::joint tag, const JT& o) : base(tag), value(o.value), a(o.a, *this), b(o.b, *this), c(o.c, *this)
             {
+                if (o.has_extra_)
+                {
+                    ::new (static_cast<void*>(extra_)) fm::joint_array<E2>(o.extra(), *this);
+                    has_extra_ = true;
+                }
             }
             JT(fm::joint tag, JT&& o)
             : base(tag), value(o.value), a(std::move(o.a), *this), b(std::move(o.b), *this),
               c(std::move(o.c), *this)
             {
+                if (o.has_extra_)
+                {
+                    ::new (static_cast<void*>(extra_)) fm::joint_array<E2>(std::move(o.extra()), *this);
+                    has_extra_ = true;
+                }
             }
         };
 
@@ -189,7 +237,7 @@ namespace cs
         template <class JTy>
         long count_elems(const JTy& o)
         {
-            return long(o.a.size() + o.b.size() + o.c.size());
+            return long(o.a.size() + o.b.size() + o.c.size() + (o.has_extra_ ? o.extra().size() : 0));
         }
 
         template <class JTy>
@@ -218,6 +266,9 @@ namespace cs
                     v.push_back(e.value);
                 for (auto& e : (*sp)->c)
                     v.push_back(e.value);
+                if ((*sp)->has_extra_)
+                    for (auto& e : (*sp)->extra())
+                        v.push_back(e.value);
                 return v;
             };
             h.mutate = [sp]
@@ -279,7 +330,8 @@ namespace cs
 
         // guarded creation: C20 bookkeeping + C11 "does not fit -> out_of_fixed_memory"
         template <class F>
-        bool guarded(Ctx& c, const char* what, long elements, long k, bool fits, F make, long temps = 0)
+        bool guarded(Ctx& c, const char* what, long elements, long k, bool fits, F make, long temps = 0,
+                     bool caught_inside = false)
         {
             // temps: constructions of temporaries that precede the elements (gone again when make() returns)
             const long constructions = elements + temps;
@@ -331,10 +383,11 @@ namespace cs
                 if (c.env->leaf[0].live.size() + c.env->leaf[1].live.size() != live0)
                     violate("C20,C11", "memory_leaked", "%s: the block obtained for the object was not given back",
                             what);
-                if (oom && fits && !(k >= 1 && k <= constructions))
-                    violate("C11,C03", "spurious_out_of_memory", "%s: out_of_fixed_memory although the additional "
-                                                             "size is sufficient",
-                            what);
+                if (oom && fits && (caught_inside || !(k >= 1 && k <= constructions)))
+                    violate(caught_inside ? "C20,C11,C03" : "C11,C03", "spurious_out_of_memory",
+                            "%s: out_of_fixed_memory although the additional size is sufficient%s", what,
+                            caught_inside ? " (a failed joint_array construction did not give its joint memory back)" :
+                                            "");
                 if (injected)
                     stats().hit("fault.constructor_failure_fired");
                 if (oom)
@@ -345,7 +398,7 @@ namespace cs
                 violate("C11,C03", "overrun_accepted", "%s: the members need more than the additional size, yet "
                                                    "creation succeeded",
                         what);
-            if (k >= 1 && k <= constructions)
+            if (k >= 1 && k <= constructions && !caught_inside)
                 violate("C20", "exception_swallowed", "%s: failure injected at construction %ld of %ld, no "
                                                       "exception arrived",
                         what, k, elements);
@@ -370,6 +423,8 @@ namespace cs
                 x.n[1] = 2;
                 x.n[2] = 1;
             }
+            if (form == F_RETRY)
+                x.n[2] = 0; // (a and the array built in the constructor's body)
             // exact need (object start is max_alignment aligned; the leaf serves >= 16 byte aligned memory)
             std::size_t pos = sizeof(T);
             if (x.n[0])
@@ -442,12 +497,20 @@ namespace cs
                                       sp = std::make_shared<fm::joint_ptr<T, LeafA>>(
                                           fm::allocate_joint<T>(al, js, typename T::byvalue_tag{}, x, v1, v2, v3));
                                       break;
+                                  case F_RETRY:
+                                      sp = std::make_shared<fm::joint_ptr<T, LeafA>>(
+                                          fm::allocate_joint<T>(al, js, typename T::retry_tag{}, x, v1, v2));
+                                      break;
                                   default:
                                       sp = std::make_shared<fm::joint_ptr<T, LeafA>>(
                                           fm::allocate_joint<T>(al, js, typename T::range_tag{}, x, r1, r2, r3));
                                   }
                               },
-                              form == F_BYVALUE ? 1 : 0);
+                              form == F_BYVALUE ? 1 : 0,
+                              // a failure among the elements of the array built in the body is caught in there
+                              form == F_RETRY && k > long(x.n[0]) && k <= long(x.n[0] + x.n[1]));
+            if (ok && form == F_RETRY && k > long(x.n[0]) && k <= long(x.n[0] + x.n[1]))
+                stats().hit("reach.joint_array_retried_inside_constructor");
             if (form == F_BYVALUE && k == 1)
                 stats().hit("reach.joint_failure_before_base");
             if (!ok)
@@ -525,6 +588,13 @@ namespace cs
                     {
                         form = F_BYVALUE;
                         k    = o.arg(6) % (tot + 3);
+                    }
+                    else if (o.arg(8) & 2)
+                    {
+                        form = F_RETRY;
+                        n3   = 0;
+                        tot  = long(n1 + n2);
+                        k    = tot ? o.arg(6) % (tot + 2) : 0;
                     }
                     int         base  = int(oi) * 10;
                     int         leaf  = int(o.arg(7)) & 1;
